@@ -165,7 +165,13 @@ func (c *Check) edgeDedupByPair() {
 	if f == nil {
 		return
 	}
-	// the per-sample body may be newGraph itself or a helper/method it calls
+	// the per-sample body may be newGraph itself or a helper/method it calls; the addition may
+	// be made through a thin wrapper that receives the two nodes
+	type edgeAdd struct {
+		call          *ssa.Call
+		parent, child ssa.Value
+	}
+	var adds []edgeAdd
 	for _, b := range helperBlocks(f, 2) {
 		for _, ins := range b.Instrs {
 			call, ok := ins.(*ssa.Call)
@@ -173,6 +179,38 @@ func (c *Check) edgeDedupByPair() {
 				continue
 			}
 			parent, child := call.Call.Args[0], call.Call.Args[1]
+			pp, okP := parent.(*ssa.Parameter)
+			cp, okC := child.(*ssa.Parameter)
+			if okP && okC && pp.Parent() == call.Parent() && cp.Parent() == call.Parent() && call.Parent() != f {
+				// wrapper: one edgeAdd per call of the wrapper
+				w := call.Parent()
+				pi, ci := -1, -1
+				for i, q := range w.Params {
+					if q == pp {
+						pi = i
+					}
+					if q == cp {
+						ci = i
+					}
+				}
+				sites, _ := directCallSites(p, w)
+				for _, cs := range sites {
+					if wc, ok := cs.(*ssa.Call); ok && pi >= 0 && ci >= 0 && pi < len(wc.Call.Args) && ci < len(wc.Call.Args) {
+						adds = append(adds, edgeAdd{wc, wc.Call.Args[pi], wc.Call.Args[ci]})
+					}
+				}
+				continue
+			}
+			adds = append(adds, edgeAdd{call, parent, child})
+		}
+	}
+	{
+		for _, ea := range adds {
+			call, parent, child := ea.call, ea.parent, ea.child
+			b := call.Block()
+			if b.Parent().Name() == "newTree" {
+				continue // the tree has no recursion to fold
+			}
 			found := false
 			for _, b2 := range b.Parent().Blocks {
 				if !b2.Dominates(b) {
@@ -481,6 +519,11 @@ func (c *Check) seenSetKeys() {
 				if call, ok := ins.(*ssa.Call); ok && call.Call.StaticCallee() != nil && call.Call.StaticCallee().Name() == "AddToEdgeDiv" {
 					has = true
 				}
+				// (or the function that keeps the per-sample sets, when the additions are made
+				// through wrappers)
+				if mu, ok := ins.(*ssa.MapUpdate); ok && isSetMap(mu.Map) && g == f {
+					has = true
+				}
 			}
 		}
 		if has {
@@ -678,6 +721,16 @@ func (c *Check) meanDivisorNeverSkipped() {
 			c.bad("C04-R4", key, p.relFile(mixed), name+" passes different divisor values to its accumulating calls")
 		}
 		if len(acc) < 2 || dw == nil {
+			// the weights may travel in a record filled by a helper and be added through wrapper
+			// methods: decide the same question from where the divisor comes from
+			if verdict, pos := c.divisorSkipGeneral(f); verdict != "" {
+				if verdict == "ok" {
+					c.ok("C04-R4", key, pos, name+" skips a sample only when its divisor contribution is zero too", "assuming the value produced by Options.SampleMeanDivisor non-zero (followed through the record it is kept in and through helpers), every path through one iteration of the sample loop reaches the frame loop")
+				} else {
+					c.bad("C04-R4", key, pos, name+" can skip a sample whose mean divisor is non-zero (a path through one iteration avoids the frame loop although the divisor value is not zero): with the mean option that sample's count is missing from FlatDiv/CumDiv/WeightDiv and the means come out too large")
+				}
+				continue
+			}
 			c.undecided("C04-R4", key, p.relFile(f.Pos()), "accumulating calls (addSample, AddToEdgeDiv) not found in "+name)
 			continue
 		}
@@ -917,4 +970,152 @@ func isNodeAccumulation(call *ssa.Call) bool {
 	}
 	recv := callee.Signature.Recv()
 	return recv != nil && structName(recv.Type()) == "graph.Node"
+}
+
+// divisorSkipGeneral decides C04-R4 without assuming where the per-sample weights are kept:
+// the divisor is whatever the function stored in Options.SampleMeanDivisor returned, followed
+// through merges, through struct fields it is stored into (field-based) and into helpers.
+// Returns "ok", "bad" or "" (shape not recognised) and a position.
+func (c *Check) divisorSkipGeneral(f *ssa.Function) (string, string) {
+	p := c.P
+	tree := withHelpers(f, 2)
+	// fields that hold the divisor
+	type fld struct {
+		T string
+		k int
+	}
+	dFields := map[fld]bool{}
+	isDivCall := func(v ssa.Value) bool {
+		call, ok := v.(*ssa.Call)
+		if !ok || call.Call.IsInvoke() || call.Call.StaticCallee() != nil {
+			return false
+		}
+		return isFieldLoad(call.Call.Value, "graph.Options", "SampleMeanDivisor")
+	}
+	var isD func(v ssa.Value, d int) bool
+	isD = func(v ssa.Value, d int) bool {
+		if d > 6 {
+			return false
+		}
+		switch x := v.(type) {
+		case *ssa.Call:
+			return isDivCall(x)
+		case *ssa.Phi:
+			for _, e := range x.Edges {
+				if isD(e, d+1) {
+					return true
+				}
+			}
+		case *ssa.UnOp:
+			if fa, ok := x.X.(*ssa.FieldAddr); ok && x.Op == token.MUL {
+				return dFields[fld{typeShort(fa.X.Type()), fa.Field}]
+			}
+			if vals, simple := cellValues(x.X); simple {
+				for _, e := range vals {
+					if isD(e, d+1) {
+						return true
+					}
+				}
+			}
+		case *ssa.Field:
+			return dFields[fld{"*" + typeShort(x.X.Type()), x.Field}] || dFields[fld{typeShort(x.X.Type()), x.Field}]
+		case *ssa.Convert:
+			return isD(x.X, d+1)
+		}
+		return false
+	}
+	for changed := true; changed; {
+		changed = false
+		for _, g := range tree {
+			for _, b := range g.Blocks {
+				for _, ins := range b.Instrs {
+					st, ok := ins.(*ssa.Store)
+					if !ok {
+						continue
+					}
+					fa, ok := st.Addr.(*ssa.FieldAddr)
+					if !ok || !isD(st.Val, 0) {
+						continue
+					}
+					k := fld{typeShort(fa.X.Type()), fa.Field}
+					if !dFields[k] {
+						dFields[k] = true
+						changed = true
+					}
+				}
+			}
+		}
+	}
+	var assume func(cond ssa.Value) int
+	var depth int
+	assume = func(cond ssa.Value) int {
+		switch x := cond.(type) {
+		case *ssa.BinOp:
+			if x.Op != token.EQL && x.Op != token.NEQ {
+				return 0
+			}
+			sign := 1
+			if x.Op == token.EQL {
+				sign = -1
+			}
+			for _, pair := range [][2]ssa.Value{{x.X, x.Y}, {x.Y, x.X}} {
+				if isD(pair[0], 0) && isConstInt(pair[1], 0) {
+					return sign // the divisor is not zero
+				}
+				if isFieldLoad(pair[0], "graph.Options", "SampleMeanDivisor") && isNilConst(pair[1]) {
+					return sign // the mean option is on
+				}
+			}
+		case *ssa.Extract:
+			// the "use this sample" flag handed back by a helper next to the weights
+			if call, ok := x.Tuple.(*ssa.Call); ok && depth < 2 {
+				if h := helperCallee(call.Parent(), call); h != nil {
+					depth++
+					reach, eval := reachUnderEval(h, assume)
+					depth--
+					res, set := 0, false
+					for _, b := range h.Blocks {
+						if !reach[b] {
+							continue
+						}
+						if ret, ok := b.Instrs[len(b.Instrs)-1].(*ssa.Return); ok && x.Index < len(ret.Results) {
+							d := eval(ret.Results[x.Index])
+							if d == 0 || (set && d != res) {
+								return 0
+							}
+							res, set = d, true
+						}
+					}
+					return res
+				}
+			}
+		}
+		return 0
+	}
+	// accumulation sites as seen from f
+	sites := effectiveSites(f, func(ins ssa.Instruction) bool {
+		call, ok := ins.(*ssa.Call)
+		return ok && isNodeAccumulation(call)
+	}, 2)
+	if len(sites) == 0 {
+		return "", ""
+	}
+	at := sites[0].at.Block()
+	// the loops around the first site, outermost first
+	var chain []*ssa.BasicBlock
+	for h := loopHeaderAround(at); h != nil; {
+		chain = append([]*ssa.BasicBlock{h}, chain...)
+		if h.Idom() == nil {
+			break
+		}
+		h = loopHeaderAround(h.Idom())
+	}
+	if len(chain) < 2 {
+		return "", ""
+	}
+	sampleHdr, frameHdr := chain[0], chain[1]
+	if iterationSkips(sampleHdr, frameHdr, assume) {
+		return "bad", p.relFile(frameHdr.Instrs[0].Pos())
+	}
+	return "ok", p.relFile(frameHdr.Instrs[0].Pos())
 }
